@@ -13,6 +13,7 @@ def stripPrefix? (s pfx : String) : Option String :=
 def judgeLine (cfg : Cfg) (op : String) (args out : List String) : Except String Bool :=
   let run : P Bool := do
     if op.startsWith "bi_" then judgeBigint cfg op out; pure true
+    else if op == "asm" then judgeAsm out; pure true
     else if op.startsWith "fp_" then
       let f ← next
       if f == "Fq" then
